@@ -234,6 +234,35 @@ def propagateBack : List (Option Nat) → List (Option Nat)
     | some i => some i :: rest'
     | none => (rest'.head?.getD none) :: rest'
 
+/-- Destination of `default`: the (propagated) body chunk of the default case, if any. -/
+def switchDefaultDest (cases : List SwitchCase) (bodyIds : List (Option Nat)) : Option Nat :=
+  (cases.zip bodyIds).foldl (fun acc (cb : SwitchCase × Option Nat) =>
+    if cb.1.2.1 then (match cb.2 with | some d => some d | none => acc) else acc) none
+
+/-- `case` lines for the non-default cases that have a (propagated) body, in source order. -/
+def switchBranchCases (cases : List SwitchCase) (bodyIds : List (Option Nat)) : List SwitchCaseBranch :=
+  (cases.zip bodyIds).filterMap fun (cb : SwitchCase × Option Nat) =>
+    if cb.1.2.1 then none else cb.2.map fun d => { value := cb.1.1, dest := d }
+
+/-- Non-default cases without any body after them. -/
+def switchTrailing (cases : List SwitchCase) (bodyIds : List (Option Nat)) : List SwitchCase :=
+  ((cases.zip bodyIds).filter fun (cb : SwitchCase × Option Nat) => !cb.1.2.1 && cb.2.isNone).map (·.1)
+
+/-- Whether the extra empty chunk for trailing body-less cases is needed. -/
+def switchNeedsEmpty (cases : List SwitchCase) (bodyIds : List (Option Nat)) : Bool :=
+  (switchDefaultDest cases bodyIds).isSome && (switchTrailing cases bodyIds).length > 0
+
+/-- The branch behaviour of the switch chunk, from the propagated body ids and the id of the
+empty chunk (used only when `switchNeedsEmpty`). -/
+def switchBranchOf (operand : Tok) (cases : List SwitchCase) (bodyIds : List (Option Nat))
+    (emptyId : Nat) (returnID : Option Nat) : Branch :=
+  let dflt := switchDefaultDest cases bodyIds
+  let bcs := switchBranchCases cases bodyIds
+  let bcs := if switchNeedsEmpty cases bodyIds then
+      bcs ++ (switchTrailing cases bodyIds).map fun (sc : SwitchCase) => { value := sc.1, dest := emptyId }
+    else bcs
+  .switch_ operand bcs dflt (if dflt.isNone then returnID else none)
+
 /-- `createSwitchStatementChunks`: (state, branch, returnID, switch chunk id) -/
 def createSwitch (operand : Tok) (cases : List SwitchCase) (c : Chunk) (i : Nat) (s : WS) :
     WS × Branch × Option Nat × Nat :=
@@ -246,22 +275,12 @@ def createSwitch (operand : Tok) (cases : List SwitchCase) (c : Chunk) (i : Nat)
   if bodyIds0.all (·.isNone) then (s, .jump switchId, returnID, switchId)
   else
     let bodyIds := propagateBack bodyIds0
-    let zipped := cases.zip bodyIds
-    let defaultDest : Option Nat :=
-      zipped.foldl (fun acc (cb : SwitchCase × Option Nat) =>
-        if cb.1.2.1 then (match cb.2 with | some d => some d | none => acc) else acc) none
-    let branchCases : List SwitchCaseBranch :=
-      zipped.filterMap fun (cb : SwitchCase × Option Nat) =>
-        if cb.1.2.1 then none else cb.2.map fun d => { value := cb.1.1, dest := d }
-    let trailing : List SwitchCase :=
-      (zipped.filter fun (cb : SwitchCase × Option Nat) => !cb.1.2.1 && cb.2.isNone).map (·.1)
-    let (s, branchCases) :=
-      if defaultDest.isSome && trailing.length > 0 then
+    let (s, eid) :=
+      if switchNeedsEmpty cases bodyIds then
         let (s, eid) := alloc s
-        let s := { s with queue := s.queue ++ [{ id := eid, returnID := returnID }] }
-        (s, branchCases ++ trailing.map fun (sc : SwitchCase) => { value := sc.1, dest := eid })
-      else (s, branchCases)
-    let br : Branch := .switch_ operand branchCases defaultDest (if defaultDest.isNone then returnID else none)
+        ({ s with queue := s.queue ++ [{ id := eid, returnID := returnID }] }, eid)
+      else (s, 0)
+    let br := switchBranchOf operand cases bodyIds eid returnID
     let s := { s with queue := s.queue.modify qlen fun ch => { ch with branch := br } }
     (s, .jump switchId, returnID, switchId)
 
